@@ -51,6 +51,17 @@ type c08Hist struct {
 
 // "a" and "A" differ only in letter case: two tag names, two rule sets
 // ... and two names longer than 16 bytes that share their first 18
+// C08Order <-> C08Detail: two named types that refer to each other.
+type C08Order struct {
+	No      string       `valid:"required|m_order_no" a:"to=2~3|m_order_no_a"`
+	Details []*C08Detail `valid:"exist" a:"exist" b:"required|m_details_b"`
+}
+
+type C08Detail struct {
+	Sku   string    `valid:"required|m_sku" b:"required|m_sku_b"`
+	Order *C08Order `valid:"exist" a:"exist"`
+}
+
 var c08Tags = []string{"valid", "a", "b", "A", "wechatMiniProgramV1", "wechatMiniProgramV2"}
 
 // c08Build builds the history; it depends on (seed, tier) only, so every child and the parent build
@@ -87,6 +98,26 @@ func c08Build(rng *rand.Rand, nHot, nCold, rounds, hotBlock int) *c08Hist {
 			vals = append(vals, v)
 		}
 		h.HotVals = append(h.HotVals, vals)
+	}
+	// named types in a reference cycle (a list node, a parent <-> child pair): whatever the cache
+	// holds or forgets, analysing them terminates and gives the same result
+	{
+		h.HotTypes = append(h.HotTypes, reflect.TypeOf(C04Chain{}))
+		h.HotVals = append(h.HotVals, []reflect.Value{reflect.ValueOf(c04Chain(3, 0)), reflect.ValueOf(c04Chain(2, 1)), reflect.ValueOf(c04Chain(4, 0))})
+		mkPair := func(n int) reflect.Value {
+			o := &C08Order{No: "o"}
+			for k := 0; k < n; k++ {
+				// the TYPES refer to each other; the values form a finite tree (no object is its own descendant)
+				d := &C08Detail{Sku: []string{"", "s"}[k%2], Order: &C08Order{No: "inner"}}
+				if k == n-1 {
+					d.Order = &C08Order{} // an order without number, reached through a detail
+				}
+				o.Details = append(o.Details, d)
+			}
+			return reflect.ValueOf(o)
+		}
+		h.HotTypes = append(h.HotTypes, reflect.TypeOf(C08Order{}))
+		h.HotVals = append(h.HotVals, []reflect.Value{mkPair(1), mkPair(2), mkPair(3)})
 	}
 	// wrappers: an anonymous hot type also occurs as a member (value, slice element) of an outer type,
 	// so that the same type is analysed now at a nested position, now on its own, in either order
